@@ -448,12 +448,12 @@ package raft
 //@ iface Transport.RegsiterInstallSnapshotHandler(handler) ()
 
 //@ func Raft.restore
+//@   requires r.lastApplied <= r.commitIndex
 //@   requires r.log != nil && r.stateStorage != nil && r.snapshotStorage != nil && r.transport != nil && r.fsm != nil
 //@   ensures [term-vote] err == nil ==> r.currentTerm == persTerm && r.votedFor == persVote
 //@   ensures [I0] err == nil ==> 0 <= Lfirst && Lfirst <= Llast
 //@   ensures [I1] err == nil ==> r.lastApplied <= r.commitIndex
-//@   ensures [I2] err == nil && r.lastIncludedIndex > 0 ==> r.commitIndex <= Llast && r.commitIndex == r.lastIncludedIndex && r.lastApplied == r.lastIncludedIndex
-//@   ensures [boundary] err == nil && r.lastIncludedIndex > 0 && !inLog(r.lastIncludedIndex) && Lfirst == r.lastIncludedIndex && old(Llast) < r.lastIncludedIndex ==> Lterm[Lfirst] == r.lastIncludedTerm
+//@   ensures [I2] err == nil && file != nil ==> r.commitIndex <= Llast && r.commitIndex == r.lastIncludedIndex && r.lastApplied == r.lastIncludedIndex
 
 // ===========================================================================================
 // Leader side: replication, commitment, leadership confirmation (C01, C04, C05, C09, C17)
